@@ -1,48 +1,56 @@
-import I18n.Model.Locale
+import I18n.Model.Charset
 /-!
-# Python kit for `lib/ling.py`: the primitives the definitions regenerated by `tools/translate/ling2lean.py` are written over
+# The Python kit the regenerated `lib/ling.py` fragment targets (`tools/translate/ling2lean.py` → `Generated/LingFn.lean`)
 
-Shared by BOTH sides of the tie (`Props/C19Tie.lean`): the hand-written model `Locale.parseLanguage` is this scanner followed by the
-constructor (`parseLanguage_eq_match`), the look-ups are the model's.  Core Lean only.
+`Language.get_unrepresentable_characters` and `Language._simple_format`.  Core Lean only.  The trusted base of the third part of
+`Props/C20Tie.lean`:
+
+* a `Language` object is its `language_code`, `territory_code`, `modifier` (str or `None`); str = code points.
+* `_get_characters(code, modifier, strict=…)` is a parameter `chars` (the model composes the section look-up with `getCharacters`).
+* `text.encode(encoding)` is the parameter `encode : text ↦ Enc` of the model (the encoding is fixed during a call): success,
+  UnicodeEncodeError (with "its reason starts with `iconv:`" — `getattr(exc, 'reason', '').startswith('iconv:')`), or anything else;
+  `UnicodeError` catches the second.  `str.join('', xs)` is `xs.flatten`.
+* `for x in xs:` with `break`: `forEachBrk` (the body says whether it broke).
 -/
-namespace I18n.Locale.Py
-open I18n I18n.Locale
+namespace I18n.Charset.LPy
+open I18n I18n.Charset
 
-/-- `match.groups()` of `_language_regexp.match(s)`; `none` = no match -/
-abbrev Groups := List Char × Option (List Char) × Option (List Char) × Option (List Char)
+structure Language where
+  language_code : Name
+  territory_code : Option Name
+  modifier : Option Name
 
-/-- `_language_regexp.match(s)`: the scanner of `Locale.parseLanguage` without the constructor -/
-def languageMatch (s : List Char) : Option Groups :=
-  let ll := s.takeWhile isLower
-  let r1 := s.dropWhile isLower
-  if ll.length < 2 then none else
-  let g2 := optGroup '_' isUpper 2 r1
-  let g3 := optGroup '.' isEncChar 1 g2.2
-  let g4 := optGroup '@' isLower 1 g3.2
-  if g4.2 = [] then some (ll, g2.1, g3.1, g4.1) else none
+inductive Exn where
+  | unicodeEncode (iconvCli : Bool)
+  | other
+  deriving DecidableEq, Repr
 
-/-- `str.upper()` on what an encoding can be (`[a-zA-Z0-9+-]+`, or an already upper-cased encoding): ASCII letters only -/
-def upper (s : List Char) : List Char := s.map asciiUpper
+def Exn.isUnicodeError : Exn → Bool
+  | .unicodeEncode _ => true
+  | .other => false
 
-/-- `_iso_639.get(k)` -/
-def iso639Get (k : List Char) : Option (List Char) := lookupLanguage k
+/-- `getattr(exc, 'reason', '').startswith('iconv:')` -/
+def Exn.reasonIsIconv : Exn → Bool
+  | .unicodeEncode b => b
+  | .other => false
 
-/-- `cc in _iso_3166` -/
-def iso3166Has (cc : List Char) : Bool := Generated.Locale.iso3166.contains cc
+def lit (s : String) : Name := s.toList.map Char.toNat
 
-/-- a method that returns `True` or falls off its end (`None`) -/
-def noneOrTrue (b : Bool) : Option Bool := if b then some true else none
+/-- `text.encode(encoding)` as a statement: only whether it raises matters -/
+def strEncode (encode : List Nat → Enc) (text : List Nat) : Except Exn Unit :=
+  match encode text with
+  | .ok => .ok ()
+  | .encodeError b => .error (.unicodeEncode b)
+  | .crash => .error .other
 
-/-- the invariant of every `Language` the code constructs: the encoding is upper-cased (`Language.__init__`) -/
-def EncUpper (l : Language) : Prop := l.enc.map upper = l.enc
+/-- `for x in xs: body` where the body may `break` (`true`) -/
+def forEachBrk {α σ ε : Type} (xs : List α) (body : α → σ → Except ε (Bool × σ)) (s : σ) : Except ε σ :=
+  match xs with
+  | [] => .ok s
+  | x :: rest =>
+    match body x s with
+    | .error e => .error e
+    | .ok (true, s') => .ok s'
+    | .ok (false, s') => forEachBrk rest body s'
 
-/-- the hand-written `parse_language` is the scanner followed by `Language(*match.groups())` -/
-theorem parseLanguage_eq_match (s : List Char) :
-    parseLanguage s = (languageMatch s).map (fun g => ⟨g.1, g.2.1, g.2.2.1.map upper, g.2.2.2⟩) := by
-  unfold parseLanguage languageMatch upper
-  simp only []
-  split
-  · rfl
-  · split <;> rfl
-
-end I18n.Locale.Py
+end I18n.Charset.LPy
